@@ -95,7 +95,9 @@ theorem cg_auto_policy_feasible (obj : List ℝ → ℝ) (D : Deriv ℝ) (cap : 
     | ok r => rw [hopt] at ho; exact ⟨ho.1.1, ho.2.report⟩
 
 /-- **bfgs_auto_policy_feasible**: the same for `BfgsMultiDimensions` — `init` (bounds, the function set
-to the list it is given), any number of steps (a line search and an evaluation). -/
+to the list it is given), any number of steps (a line search and an evaluation; on a function
+increase the optimiser's list is set back by `setValue` to the point the step started from and the
+function is evaluated there). -/
 theorem bfgs_auto_policy_feasible (obj : List ℝ → ℝ) (D : Deriv ℝ) (cap : Option Nat) (fuel : Nat)
     (params : PList ℝ) (s : St (Fn ℝ) (Bfgs ℝ) ℝ) (hpol : s.core.policy ≠ .ignore)
     (hfeas : feasibleList params = true) (hnd : (params.map (·.name)).Nodup)
